@@ -5,4 +5,4 @@ Extraction Language OCaml.
 Extraction "m_c11.ml" fs_read fs_read_call write_all sys_list apply_log result_of total_len
   sqe_of kernel_of_sqe work norm takes_ring api_check retries
   req_init req_early work_effect ring_submit ring_finish scandir_next iter_next req_cleanup
-  uv_live alloc mkHeap pool_size sq_run pathmax_size.
+  uv_live alloc mkHeap pool_size sq_run pathmax_size scandir_keeps.
